@@ -12,7 +12,8 @@
    Quantification: ALL write lists (any number, any sizes, including empty writes), ALL
    buffer sizes B >= 1, ALL failure points, ALL schedules. *)
 From Coq Require Import List Bool NArith Lia.
-From FsDb Require Import Conc RW RWProofs.
+From FsDb Require Import Conc RW RWProofs Faults Stream StreamProofs Upload.
+Close Scope N_scope.
 Import ListNotations.
 Open Scope bool_scope.
 
@@ -106,6 +107,37 @@ Theorem C12_stream_concat : forall cs ws, 1 <= cs ->
   Forall (fun c => 0 < length c <= cs) (writer_chunks cs ws).
 Proof. exact stream_concat. Qed.
 
+(* ---- gRPC client, end to end: stream writer -> chunks -> the server's upload reader -> store.Set ---- *)
+(* a completed external Create stores the concatenation of its Writes: every chunk size, every Read buffer
+   length of the server, every fault plan and candidate order of the roots *)
+Theorem C12_grpc_create_stores_concat :
+  forall cs (ws : list (list RW.byte)) n fuel src buf order r content,
+    1 <= cs -> 0 < n ->
+    sr_source false n fuel (sr_init (writer_chunks cs ws) false) = Some src ->
+    res_out (set_run (store_fixed buf) order src) = Stored r content ->
+    content = concat ws.
+Proof. exact upload_stores_concat. Qed.
+
+(* the server's read loop over that stream ends (the fuel is not a restriction) *)
+Theorem C12_grpc_create_reader_terminates :
+  forall cs (ws : list (list RW.byte)) ab n fuel,
+    1 <= cs -> 0 < n -> length (concat ws) < fuel ->
+    exists src, sr_source false n fuel (sr_init (writer_chunks cs ws) ab) = Some src.
+Proof. exact upload_reader_terminates. Qed.
+
+(* a Create whose stream is cut after any number of chunks is not stored *)
+Theorem C12_grpc_create_abort_not_stored :
+  forall cs (ws : list (list RW.byte)) k n fuel src buf order,
+    0 < n ->
+    sr_source false n fuel (sr_init (firstn k (writer_chunks cs ws)) true) = Some src ->
+    exists e, res_out (set_run (store_fixed buf) order src) = Err e.
+Proof. exact upload_abort_not_stored. Qed.
+
+Example C12_grpc_create_example :
+  sr_source false 3 9 (sr_init (writer_chunks 4 [[1; 2]; []; [3; 4; 5]]%N) false)
+  = Some [Data [1; 2; 3]%N; Data [4; 5]%N].
+Proof. vm_compute. reflexivity. Qed.
+
 (* ---- non-vacuity ---- *)
 
 (* the D2 choices on the repaired code (the woken reader re-tests and waits again; Close's
@@ -153,3 +185,6 @@ Print Assumptions C12_close_returns_refuted_orig.
 Print Assumptions C12_loop_only_refuted.
 Print Assumptions C12_lock_only_refuted.
 Print Assumptions C12_stream_concat.
+Print Assumptions C12_grpc_create_stores_concat.
+Print Assumptions C12_grpc_create_reader_terminates.
+Print Assumptions C12_grpc_create_abort_not_stored.
